@@ -5,9 +5,11 @@ package c02
 
 import (
 	"fmt"
+	"sort"
 	"strings"
 
 	"verif/harness/engines/chw"
+	"verif/harness/engines/gen"
 	"verif/harness/engines/run"
 	"verif/harness/props/c01"
 	"verif/harness/props/reg"
@@ -30,6 +32,7 @@ func Main(c *run.Ctx) {
 	c.Floor("blocks checked", 50, 0)
 	c.Floor("rows compared with submitted rows", 1000, 0)
 	c.Floor("single-chunk requests found whole in one successful block", 20, 0)
+	c.Floor("rows sent again after a failed INSERT compared field by field", 50, 0)
 }
 
 func Child(c *run.Ctx, name string) {
@@ -97,6 +100,35 @@ func Check(c *run.Ctx, wl chw.WorkCfg, h *chw.History) {
 		}
 		c.Violation("dup-row/"+tableIn(d), d+fmt.Sprintf(" (cfg %s)", ck), map[string]any{"cfg": wl, "all": first(a.Dup, 20)})
 	}
+	// a row that is sent again (retry after a failed INSERT) is the same row in every field
+	nretried, reported := 0, 0
+	for id, occs := range a.Occ {
+		if len(occs) < 2 {
+			continue
+		}
+		var ref string
+		var refBlk *chw.Block
+		for _, oc := range occs {
+			if oc.Idx < 0 || oc.Idx >= len(oc.Blk.Rows) {
+				continue
+			}
+			row := rowText(oc.Blk.Rows[oc.Idx])
+			if refBlk == nil {
+				ref, refBlk = row, oc.Blk
+				continue
+			}
+			if oc.Blk == refBlk {
+				continue // duplicates inside one block are reported above
+			}
+			nretried++
+			if row != ref && reported < 5 {
+				reported++
+				c.Violation("resent-row-differs/"+strings.TrimSuffix(oc.Blk.Table, "_dist"), fmt.Sprintf("row %s was sent in block %d and again in block %d (cfg %s) with different field values: %q vs %q", clip(id, 80), refBlk.Seq, oc.Blk.Seq, ck, clip(ref, 300), clip(row, 300)),
+					map[string]any{"cfg": wl, "row": id, "first": clip(ref, 2000), "again": clip(row, 2000)})
+			}
+		}
+	}
+	c.Floor("rows sent again after a failed INSERT compared field by field", 0, nretried)
 	c.Event("foreign_rows", len(a.Foreign))
 	c.Event("duplicated_rows", len(a.Dup))
 	// rows of a request are all in the block(s) whose outcome it was told
@@ -199,6 +231,33 @@ func firstRow(b *chw.Block) any {
 func first(s []string, n int) []string {
 	if len(s) > n {
 		return s[:n]
+	}
+	return s
+}
+
+// rowText renders a row for comparison; a cell holding a JSON object of strings (a label document) is rendered
+// with sorted keys, its key order is not part of the row.
+func rowText(row []any) string {
+	parts := make([]string, len(row))
+	for i, cell := range row {
+		parts[i] = fmt.Sprintf("%v", cell)
+		if sv, ok := cell.(string); ok && strings.HasPrefix(sv, "{") {
+			if m, err := gen.StrictJSONStringMap([]byte(sv)); err == nil {
+				kv := make([]string, 0, len(m))
+				for _, l := range m {
+					kv = append(kv, fmt.Sprintf("%q:%q", l[0], l[1]))
+				}
+				sort.Strings(kv)
+				parts[i] = "{" + strings.Join(kv, ",") + "}"
+			}
+		}
+	}
+	return "[" + strings.Join(parts, " ") + "]"
+}
+
+func clip(s string, n int) string {
+	if len(s) > n {
+		return s[:n] + "…"
 	}
 	return s
 }
